@@ -18,6 +18,8 @@ static sector_count_type SpaceRoot_catalog_sectors(const struct SpaceRoot *root)
 #include "CatalogEntry_metadata_byte.inc"
 #include "CatalogEntry_metadata_word.inc"
 #include "CatalogEntry_start_sector.inc"
+#include "CatalogEntry_file_length.inc"
+#include "CatalogEntry_last_sector.inc"
 #include "dfs_catalog_min.h"
 #include "catalog_sectors_for_format.inc"
 #include "data_sectors_reserved_for_catalog.inc"
@@ -26,6 +28,68 @@ static sector_count_type SpaceRoot_catalog_sectors(const struct SpaceRoot *root)
 static void space_maybe_gap_v(sector_count_type last, sector_count_type next)       /* records the call, then the real function */
 { if (SP.mg_calls < 4) SP.mg_calls++; SP.mg_last = last; SP.mg_next = next; space_maybe_gap(last, next); }
 #include "space_add_initial_gap.inc"
+
+/* ---- the gap after one catalogue entry, and Catalog::map_sectors (what `sector-map` / `extract-unused` are built on) ---- */
+#define ENTRIES_MAX 62
+struct CatalogM { sector_count_type catalog_sectors; size_t entries_n; };     /* entries() is the harness array h_entries */
+static struct CatalogEntry h_entries[ENTRIES_MAX];
+static size_t g_e;                   /* ghost entry index */
+static sector_count_type g_c;        /* ghost catalogue sector index */
+static struct { unsigned long cat_calls; _Bool cat_c_seen; sector_count_type cat_c_val;
+                unsigned long file_calls; _Bool file_e_seen; sector_count_type file_e_begin, file_e_end; } MS;
+static void map_add_catalog_sector(sector_count_type sec) { if (MS.cat_calls == g_c) { MS.cat_c_seen = 1; MS.cat_c_val = sec; } MS.cat_calls++; }
+static void map_add_file_sectors(size_t ei, sector_count_type begin, sector_count_type end)
+{ if (ei == g_e) { MS.file_e_seen = 1; MS.file_e_begin = begin; MS.file_e_end = end; } MS.file_calls++; }
+#define MAP_CAT_LOOP_CONTRACT \
+  __CPROVER_assigns(sec, MS.cat_calls, MS.cat_c_seen, MS.cat_c_val) \
+  __CPROVER_loop_invariant(sec <= self->catalog_sectors && MS.cat_calls == sec && MS.cat_c_seen == (g_c < sec) && \
+                           (g_c < sec ==> MS.cat_c_val == catalog_origin_lba + g_c)) \
+  __CPROVER_decreases(self->catalog_sectors - sec)
+#define ENT(e) (h_entries[e])
+#define ENT_START(e)  ((unsigned long)ENT(e).raw_metadata_[7] | (((unsigned long)ENT(e).raw_metadata_[6] & 3ul) << 8))
+#define ENT_LENGTH(e) ((unsigned long)ENT(e).raw_metadata_[4] | ((unsigned long)ENT(e).raw_metadata_[5] << 8) | ((((unsigned long)ENT(e).raw_metadata_[6] >> 4) & 3ul) << 16))
+#define MAP_FILE_LOOP_CONTRACT \
+  __CPROVER_assigns(ei, MS.file_calls, MS.file_e_seen, MS.file_e_begin, MS.file_e_end) \
+  __CPROVER_loop_invariant(ei <= self->entries_n && MS.file_calls == ei && MS.file_e_seen == (g_e < ei) && \
+                           (g_e < ei ==> (MS.file_e_begin == data_origin_lba + ENT_START(g_e) && \
+                                          MS.file_e_end == data_origin_lba + ENT_START(g_e) + (ENT_LENGTH(g_e) + 255ul) / 256ul))) \
+  __CPROVER_decreases(self->entries_n - ei)
+#include "space_entry_gap.inc"
+#include "Catalog_map_sectors.inc"
+
+/* C14: the run after a file starts right after the sectors it occupies: start + ceil(length / 256) -- a zero-length file
+   occupies none ("total = total sectors - catalogue sectors - the sectors of all files") */
+static void space_entry_gap(const struct CatalogEntry *ce, sector_count_type next_start)
+__CPROVER_requires(__CPROVER_is_fresh(ce, sizeof(*ce)) && g_exc == EXC_NONE && !g_exc_by_pointer && SP.sum <= (1ul << 40) && SP.pushes <= (1ul << 40) && SP.mg_calls == 0)
+__CPROVER_assigns(g_exc, g_exc_by_pointer, SP)
+__CPROVER_ensures(SP.mg_calls == 1 && SP.mg_next == next_start &&
+                  SP.mg_last == (sector_count_type)(((unsigned long)ce->raw_metadata_[7] | (((unsigned long)ce->raw_metadata_[6] & 3ul) << 8)) +
+                                 (((unsigned long)ce->raw_metadata_[4] | ((unsigned long)ce->raw_metadata_[5] << 8) | ((((unsigned long)ce->raw_metadata_[6] >> 4) & 3ul) << 16)) + 255ul) / 256ul));
+
+/* C14: sector-map labels the catalogue's sectors and, for each file, exactly the sectors it occupies:
+   [start, start + ceil(length/256)) relative to the data origin */
+static void Catalog_map_sectors(const struct CatalogM *self, unsigned long catalog_origin_lba, unsigned long data_origin_lba)
+__CPROVER_requires(__CPROVER_is_fresh(self, sizeof(*self)) && self->catalog_sectors <= 4 && self->entries_n <= ENTRIES_MAX)
+__CPROVER_requires(catalog_origin_lba <= (1ul << 24) && data_origin_lba <= (1ul << 24) && MS.cat_calls == 0 && MS.file_calls == 0 && !MS.cat_c_seen && !MS.file_e_seen)
+__CPROVER_assigns(MS)
+__CPROVER_ensures(MS.cat_calls == self->catalog_sectors && MS.file_calls == self->entries_n)
+__CPROVER_ensures(g_c < self->catalog_sectors ==> (MS.cat_c_seen && MS.cat_c_val == catalog_origin_lba + g_c))
+__CPROVER_ensures(g_e < self->entries_n ==> (MS.file_e_seen && MS.file_e_begin == data_origin_lba + ENT_START(g_e) &&
+                                             MS.file_e_end == data_origin_lba + ENT_START(g_e) + (ENT_LENGTH(g_e) + 255ul) / 256ul));
+
+void h_entry_gap(void)
+{
+  const struct CatalogEntry *ce;
+  g_exc = EXC_NONE; g_exc_by_pointer = 0; SP.mg_calls = 0;
+  space_entry_gap(ce, nondet_uint());
+}
+void h_map_sectors(void)
+{
+  const struct CatalogM *c;
+  g_e = nondet_size_t(); g_c = nondet_uint();
+  MS.cat_calls = 0; MS.file_calls = 0; MS.cat_c_seen = 0; MS.file_e_seen = 0;
+  Catalog_map_sectors(c, nondet_ulong(), nondet_ulong());
+}
 
 static sector_count_type catalog_sectors_for_format(int f)
 __CPROVER_assigns() __CPROVER_ensures(__CPROVER_return_value == (f == Format_WDFS ? 4u : 2u));
